@@ -52,6 +52,24 @@ fn interesting(rng: &mut Rng) -> i64 {
     }
 }
 
+/// value of the low `size` bytes of x as a signed number
+fn sext(x: i64, size: u64) -> i128 {
+    if size >= 8 {
+        x as i128
+    } else {
+        let bits = 8 * size as u32;
+        let m = (x as i128) & ((1i128 << bits) - 1);
+        if m >> (bits - 1) & 1 == 1 { m - (1i128 << bits) } else { m }
+    }
+}
+/// does the mathematical result r leave the signed range of `size` bytes?  The analyzer's interval domain
+/// deliberately gives up (Top) on signed overflow of add/sub/mul/shift-left, also for constants, so such
+/// computations are outside the input class "constant that the block computes" (modelled deviation).
+fn sovf(r: i128, size: u64) -> bool {
+    let bits = 8 * size.min(8) as u32;
+    r < -(1i128 << (bits - 1)) || r > (1i128 << (bits - 1)) - 1
+}
+
 struct Gen<'a> {
     rng: &'a mut Rng,
     defs: Vec<Term<Def>>,
@@ -89,7 +107,19 @@ impl<'a> Gen<'a> {
         for _ in 0..steps {
             let c = mask(if self.rng.chance(1, 2) { self.rng.range(0, 0o1000) } else { interesting(self.rng) });
             let next = self.holder(size);
-            match self.rng.below(9) {
+            let mut pick = self.rng.below(9);
+            let k_shift = self.rng.below(4) as i64;
+            // steps that would overflow in the signed sense become plain copies
+            let overflows = match pick {
+                0 => sovf(sext(cur_val, size) + sext(c, size), size),
+                1 => sovf(sext(cur_val, size) - sext(c, size), size),
+                5 => sovf(sext(cur_val, size) * (1i128 << k_shift), size),
+                _ => false,
+            };
+            if overflows {
+                pick = 8;
+            }
+            match pick {
                 0 => {
                     self.push(Def::Assign { var: next.clone(), value: bin(IntAdd, var(&cur), cst(c, size)) });
                     cur_val = mask(cur_val.wrapping_add(c));
@@ -111,7 +141,7 @@ impl<'a> Gen<'a> {
                     cur_val = mask(cur_val ^ c);
                 }
                 5 => {
-                    let k = self.rng.below(4) as i64;
+                    let k = k_shift;
                     let asz = if self.rng.chance(1, 3) { 1 } else { size };
                     self.push(Def::Assign { var: next.clone(), value: bin(IntLeft, var(&cur), cst(k, asz)) });
                     cur_val = mask(cur_val.wrapping_shl(k as u32));
@@ -139,9 +169,15 @@ impl<'a> Gen<'a> {
         if self.rng.chance(3, 4) {
             let next = self.holder(size);
             let want = mask(want);
-            match self.rng.below(3) {
-                0 => self.push(Def::Assign { var: next.clone(), value: bin(IntAdd, var(&cur), cst(mask(want.wrapping_sub(cur_val)), size)) }),
-                1 => self.push(Def::Assign { var: next.clone(), value: bin(IntSub, var(&cur), cst(mask(cur_val.wrapping_sub(want)), size)) }),
+            let delta = mask(want.wrapping_sub(cur_val));
+            let delta2 = mask(cur_val.wrapping_sub(want));
+            let mut how = self.rng.below(3);
+            if (how == 0 && sovf(sext(cur_val, size) + sext(delta, size), size)) || (how == 1 && sovf(sext(cur_val, size) - sext(delta2, size), size)) {
+                how = 2;
+            }
+            match how {
+                0 => self.push(Def::Assign { var: next.clone(), value: bin(IntAdd, var(&cur), cst(delta, size)) }),
+                1 => self.push(Def::Assign { var: next.clone(), value: bin(IntSub, var(&cur), cst(delta2, size)) }),
                 _ => self.push(Def::Assign { var: next.clone(), value: bin(IntXOr, var(&cur), cst(mask(cur_val ^ want), size)) }),
             }
             cur = next;
@@ -183,6 +219,107 @@ impl<'a> Gen<'a> {
     }
 }
 
+impl<'a> Gen<'a> {
+    fn store_const(&mut self, off: i64, val: i64, size: u64) {
+        let a = if off < 0 && self.rng.chance(1, 2) {
+            bin(BinOpType::IntSub, var(&sp_var()), cst(-off, 8))
+        } else {
+            bin(BinOpType::IntAdd, var(&sp_var()), cst(off, 8))
+        };
+        // the constant directly or through a register / temporary
+        if self.rng.chance(1, 2) {
+            self.push(Def::Store { address: a, value: cst(val, size) });
+        } else {
+            let h = self.holder(size);
+            self.push(Def::Assign { var: h.clone(), value: cst(val, size) });
+            self.push(Def::Store { address: a, value: var(&h) });
+        }
+    }
+    /// Stack-slot shapes: several locals at different offsets, a larger slot, a LATER store that starts
+    /// strictly inside it / overlaps it partially, then a load of the original slot or of a sub-range.
+    /// Every byte is a constant, so the parameter is a constant; the specification judges it by its true
+    /// value.  The constants are steered (mechanically, by the recipes below) so that a load that no
+    /// longer corresponds to one stored element has a true value that needs NO warning, while the stale
+    /// value of the overwritten element would need one.  Returns the parameter the value ends up in.
+    fn slot_scenario(&mut self, umask: bool, regname: &str, stack_off: i64) -> Arg {
+        let size: u64 = if self.rng.chance(2, 3) { 8 } else { 4 };
+        let o = -8 * self.rng.range(2, 5); // the slot [o, o+size)
+        // locals below (and sometimes above) the slot; the lowest one is the "first" element of the region
+        let ndecoy = 1 + self.rng.below(3) as i64;
+        let mut order: Vec<i64> = (1..=ndecoy).collect();
+        self.rng.shuffle(&mut order);
+        let big_first = self.rng.chance(1, 3);
+        // stale value of the slot: would need a warning
+        let (stale, small_val, small_size, d): (i64, i64, u64, i64) = if umask {
+            match self.rng.below(3) {
+                0 => (0x2ff, 1, 1, 1),                                                  // true value 0o777
+                _ => (0x100 * self.rng.range(1, 3) + self.rng.range(0, 127), 0, *self.rng.pick(&[1, 2, 3]), 1), // true value <= 0o177
+            }
+        } else {
+            let s = *self.rng.pick(&[1u64, 2, 4]);
+            let d = self.rng.range(1, size as i64 - 1);
+            (*self.rng.pick(&[8i64, 8, 8, 0x108, 16]), *self.rng.pick(&[1i64, 2, 0xff, 8]), s, d)
+        };
+        if big_first {
+            self.store_const(o, stale, size);
+        }
+        for j in order {
+            let dsz = *self.rng.pick(&[4u64, 8, 2]);
+            let v = interesting(self.rng);
+            self.store_const(o - 8 * j, v, dsz);
+        }
+        if !big_first {
+            self.store_const(o, stale, size);
+        }
+        if o + 16 <= -8 && self.rng.chance(1, 3) {
+            let v = interesting(self.rng);
+            self.store_const(o + 8, v, 8);
+        }
+        let recipe = self.rng.below(10);
+        let (load_off, load_size): (i64, u64) = match recipe {
+            0..=5 => {
+                // later store strictly inside the slot (or running over its end); reload the whole slot
+                self.store_const(o + d, small_val, small_size);
+                (o, size)
+            }
+            6 | 7 => {
+                // later, equally sized store overlapping the slot from below; reload the whole slot.
+                // Its upper half becomes the lower half of the slot: zero for umask (true value stays
+                // small: the slot's own upper half is zero), non-zero otherwise
+                let half = (size / 2) as i64;
+                let upper: i64 = if umask { 0 } else { 3 };
+                let v = (upper << (8 * half)) | 0x55;
+                self.store_const(o - half, v, size);
+                (o, size)
+            }
+            _ => {
+                // later store inside the slot, then a load of exactly that sub-range (any value: exact)
+                let sub = if size == 8 { 4 } else { 2 };
+                let v = if umask { interesting(self.rng) } else { *self.rng.pick(&[8i64, 8, 4, 16, 0x108]) };
+                self.store_const(o + sub as i64, v, sub);
+                (o + sub as i64, sub)
+            }
+        };
+        // load and pass on
+        let t = self.holder(load_size);
+        let a = bin(BinOpType::IntAdd, var(&sp_var()), cst(load_off, 8));
+        self.push(Def::Load { var: t.clone(), address: a });
+        if self.rng.chance(1, 3) {
+            let arg = Arg::Stack { address: bin(BinOpType::IntAdd, var(&sp_var()), cst(stack_off, 8)), size: ByteSize::new(load_size), data_type: None };
+            if let Arg::Stack { address, .. } = &arg {
+                self.push(Def::Store { address: address.clone(), value: var(&t) });
+            }
+            arg
+        } else if load_size == 8 {
+            self.push(Def::Assign { var: reg(regname, 8), value: var(&t) });
+            Arg::from_var(reg(regname, 8), None)
+        } else {
+            self.push(Def::Assign { var: reg(regname, 8), value: cast(CastOpType::IntZExt, 8, var(&t)) });
+            Arg::Register { expr: subpiece(0, load_size, var(&reg(regname, 8))), data_type: None }
+        }
+    }
+}
+
 fn param(rng: &mut Rng, regname: &str, stack_off: i64) -> Arg {
     match rng.below(6) {
         0 | 1 | 2 => Arg::from_var(reg(regname, 8), None),
@@ -195,16 +332,21 @@ fn param(rng: &mut Rng, regname: &str, stack_off: i64) -> Arg {
 pub fn gen_input(seed: u64, idx: u64) -> Input {
     let mut rng = Rng::new(seed.wrapping_mul(0x1_0000_01B3).wrapping_add(idx).wrapping_add(0xC18));
     let umask = rng.chance(1, 2);
-    let params: Vec<Arg> = if umask {
-        vec![param(&mut rng, "RDI", 0)]
-    } else {
-        let n = 1 + rng.below(3) as usize;
-        (0..n).map(|i| param(&mut rng, ["RDI", "RSI", "RDX"][i], 8 * i as i64)).collect()
-    };
+    let nparams = if umask { 1 } else { 1 + rng.below(3) as usize };
     let name = if umask { "umask" } else { *rng.pick(&["malloc", "memmove"]) };
-    let symbol = mk_extern(name, "a000", params.clone(), false);
+    // which parameter (if any) comes out of a stack-slot scenario
+    let slot_param = if rng.chance(2, 5) { Some(rng.below(nparams as u64) as usize) } else { None };
+    let mut params: Vec<Arg> = Vec::new();
     let mut g = Gen { rng: &mut rng, defs: vec![], ntemp: 0 };
-    for (i, p) in params.iter().enumerate() {
+    for i in 0..nparams {
+        let regname = ["RDI", "RSI", "RDX"][i];
+        if slot_param == Some(i) {
+            let p = g.slot_scenario(umask, regname, 8 * i as i64);
+            params.push(p);
+            continue;
+        }
+        let p = param(g.rng, regname, 8 * i as i64);
+        params.push(p.clone());
         // a parameter is sometimes left to the caller's caller (not computed in this block)
         if i > 0 && g.rng.chance(1, 4) {
             continue;
@@ -214,9 +356,10 @@ pub fn gen_input(seed: u64, idx: u64) -> Input {
         } else {
             *g.rng.pick(&[8i64, 8, 4, 16, 7, 9, 0x1_0000_0008, 0x108])
         };
-        g.set_param(p, want);
+        g.set_param(&p, want);
     }
     let defs = g.defs;
+    let symbol = mk_extern(name, "a000", params, false);
     Input { checker: if umask { "CWE560".into() } else { "CWE467".into() }, defs, symbol }
 }
 
